@@ -42,7 +42,7 @@ import (
 
 func TestMain(m *testing.M) {
 	stats.Init("C18")
-	stats.Rule("rapid draws (pattern, socket|context) from the support table of the option under test (RECV-DEADLINE 25 kinds, SEND-DEADLINE/BEST-EFFORT 15 kinds, FAIL-NO-PEERS 4 kinds, never-blocking senders 9 kinds), d in {5,20,50} ms, WRITEQ-LEN in {0,1,2} (push: {1,2}), queue state (empty / partially full / full, filled through vt back-pressure), peer state (none / connected silent or blocked / accepting / leaving mid-call / left before) and the way a no-deadline call is unblocked (inject, release, connect, close). One timed API call per case. Non-trivial: the timed call really blocked (a probe saw it still pending after d/2, or after 150 ms for no-deadline calls), or — for best-effort / fail-no-peers — the same call without the option would have blocked (full queue or no peer); distinct by (test, kind, scenario, peer, d, wq, pre, unblock)")
+	stats.Rule("rapid draws (pattern, socket|context) from the support table of the option under test (RECV-DEADLINE 25 kinds, SEND-DEADLINE/BEST-EFFORT 15 kinds, FAIL-NO-PEERS 4 kinds, never-blocking senders 9 kinds), d in {5,20,50} ms, WRITEQ-LEN in {0,1,2} (push: {1,2}), queue state (send side: empty / partially full / full, filled through vt back-pressure; receive side: empty / 1-3 queued / READQ-LEN exactly full), peer state (none / connected silent or blocked / accepting / leaving mid-call / left before) and the way a no-deadline call is unblocked (inject, release, connect, close). One timed API call per case. Non-trivial: the timed call really blocked (a probe saw it still pending after d/2, or after 150 ms for no-deadline calls), or — for best-effort / fail-no-peers — the same call without the option would have blocked (full queue or no peer); distinct by (test, kind, scenario, peer, d, wq, pre, unblock). A (scenario, peer, kind) shape that hit a listed known finding twice is no longer generated in that process")
 	stats.Assume("lower bounds exact, upper bounds generous (d+2s), at-once success under the 3x re-execution rule")
 	stats.Assume("'at once' / 'immediately' = within 1 s; 'it waits' = still blocked after 150 ms")
 	stats.Assume("negative deadlines (documented as non-blocking, implemented as no deadline) are outside the statement and not generated")
@@ -580,7 +580,14 @@ func allRetry(v []viol) bool {
 }
 
 // run executes the case under the 3x re-execution rule and reports what is left.
-func run(t stats.TB, doc interface{}, canon string, class string, fn func(c *cse)) {
+func run(t stats.TB, doc interface{}, kind, canon, class string, fn func(c *cse)) {
+	// a shape (scenario, peer state, kind) that has hit a listed known finding twice is not
+	// generated again in this process, so that the budget goes to what lies behind it
+	shape := class + "|" + kind
+	if knownShapeHits[shape] >= 2 {
+		stats.Excluded(knownShapeKey[shape])
+		return
+	}
 	var c *cse
 	for attempt := 1; ; attempt++ {
 		var err error
@@ -605,9 +612,18 @@ func run(t stats.TB, doc interface{}, canon string, class string, fn func(c *cse
 	}
 	stats.Sample(doc)
 	for _, x := range c.viols {
+		if stats.Known(x.key) {
+			knownShapeKey[shape] = x.key
+			knownShapeHits[shape]++
+		}
 		stats.Fail(t, x.key, doc, "%s", x.msg)
 	}
 }
+
+var (
+	knownShapeKey  = map[string]string{}
+	knownShapeHits = map[string]int{}
+)
 
 // replayInto loads the case of a replay document written for test name into p.
 func replayInto(name string, p interface{}) bool {
@@ -643,6 +659,7 @@ type recvCase struct {
 	Peer     string `json:"peer"`     // none | silent | leaving
 	Dms      int    `json:"d_ms"`
 	NQ       int    `json:"queued"`
+	QFull    bool   `json:"rq_full"`       // READQ-LEN = number of queued messages (receive queue full)
 	Zero     bool   `json:"explicit_zero"` // set a positive deadline first, then 0
 	Unblock  string `json:"unblock"`       // inject | close
 	Rseed    string `json:"rseed"`
@@ -662,7 +679,8 @@ func TestC18RecvDeadline(t *testing.T) {
 			c.Scenario = rapid.SampledFrom([]string{"timeout", "timeout", "timeout", "queued", "queued", "nodeadline"}).Draw(t, "scenario")
 			c.Peer = rapid.SampledFrom([]string{"none", "silent", "leaving"}).Draw(t, "peer")
 			c.Dms = rapid.SampledFrom([]int{5, 20, 50}).Draw(t, "d")
-			c.NQ = rapid.IntRange(1, 2).Draw(t, "nq")
+			c.NQ = rapid.IntRange(1, 3).Draw(t, "nq")
+			c.QFull = rapid.Bool().Draw(t, "rqfull")
 			c.Zero = rapid.Bool().Draw(t, "zero")
 			c.Unblock = rapid.SampledFrom([]string{"inject", "close"}).Draw(t, "unblock")
 			recvRun(t, c)
@@ -681,6 +699,7 @@ func recvRun(t stats.TB, rc recvCase) {
 		}
 		if pat.name == "rep" || pat.name == "req" {
 			rc.NQ = 1 // no receive queue / one reply per request
+			rc.QFull = false
 		}
 	case "nodeadline":
 		if rc.Peer == "leaving" {
@@ -694,15 +713,23 @@ func recvRun(t stats.TB, rc recvCase) {
 		}
 	}
 	if rc.Scenario != "queued" {
-		rc.NQ = 0
+		rc.NQ, rc.QFull = 0, false
 	}
 	if rc.Scenario != "nodeadline" {
 		rc.Zero, rc.Unblock = false, ""
 	}
 	d := ms(rc.Dms)
-	canon := fmt.Sprintf("recv|%s|%s|%s|%d|%d|%v|%s", rc.Kind, rc.Scenario, rc.Peer, rc.Dms, rc.NQ, rc.Zero, rc.Unblock)
-	run(t, rc, canon, "recv:"+rc.Scenario+":"+rc.Peer, func(c *cse) {
+	canon := fmt.Sprintf("recv|%s|%s|%s|%d|%d|%v|%v|%s", rc.Kind, rc.Scenario, rc.Peer, rc.Dms, rc.NQ, rc.QFull, rc.Zero, rc.Unblock)
+	run(t, rc, rc.Kind, canon, "recv:"+rc.Scenario+":"+rc.Peer, func(c *cse) {
 		c.setup(rc.Kind, -1)
+		if rc.QFull {
+			// READQ-LEN is a socket option, except SUB and SURVEYOR where each context has its own
+			on := c.sub
+			if pat.name == "respondent" {
+				on = c.sock
+			}
+			c.setOpt(on, mangos.OptionReadQLen, rc.NQ)
+		}
 		if rc.Peer != "none" {
 			c.connect(false)
 		}
@@ -904,7 +931,7 @@ func sendRun(t stats.TB, sc sendCase) {
 	}
 	d := ms(sc.Dms)
 	canon := fmt.Sprintf("send|%s|%s|%s|%d|%d|%d|%s", sc.Kind, sc.Scenario, sc.Peer, sc.Dms, sc.WQ, sc.Pre, sc.Unblock)
-	run(t, sc, canon, "send:"+sc.Scenario+":"+sc.Peer, func(c *cse) {
+	run(t, sc, sc.Kind, canon, "send:"+sc.Scenario+":"+sc.Peer, func(c *cse) {
 		c.setup(sc.Kind, sc.WQ)
 		switch sc.Peer {
 		case "blocked", "leaving":
@@ -1002,7 +1029,9 @@ func sendRun(t stats.TB, sc sendCase) {
 			case !ok:
 				c.add("send-hang", false, "%s without deadline did not return within %v after %s", what, upper, sc.Unblock)
 				c.join(ch)
-			case anyEnd && r.err == mangos.ErrSendTimeout, !anyEnd && r.err != want:
+			case anyEnd && r.err == mangos.ErrSendTimeout:
+				c.add("send-wrong-error", false, "%s without deadline returned %s on Close", what, errName(r.err))
+			case !anyEnd && r.err != want:
 				c.add("send-wrong-error", false, "%s without deadline returned %s after %s, want %s", what, errName(r.err), sc.Unblock, errName(want))
 			}
 
@@ -1096,7 +1125,7 @@ func beRun(t stats.TB, bc beCase) {
 		}
 	}
 	canon := fmt.Sprintf("be|%s|%s|%d|%d|%v", bc.Kind, bc.State, bc.WQ, bc.K, bc.KeepDL)
-	run(t, bc, canon, "besteffort:"+bc.State, func(c *cse) {
+	run(t, bc, bc.Kind, canon, "besteffort:"+bc.State, func(c *cse) {
 		c.setup(bc.Kind, bc.WQ)
 		switch bc.State {
 		case "blocked-full":
@@ -1228,7 +1257,7 @@ func npRun(t stats.TB, nc npCase) {
 	}
 	d := ms(nc.Dms)
 	canon := fmt.Sprintf("np|%s|%s|%d|%d", nc.Kind, nc.State, nc.Dms, nc.WQ)
-	run(t, nc, canon, "nopeers:"+nc.State, func(c *cse) {
+	run(t, nc, nc.Kind, canon, "nopeers:"+nc.State, func(c *cse) {
 		c.setup(nc.Kind, nc.WQ)
 		on := nc.State != "off-leave-send"
 		c.setOpt(c.sub, mangos.OptionFailNoPeers, true)
